@@ -135,6 +135,15 @@ def check(ctx, rep):
     from .. import roles as _roles
     nwalk = _roles.iteration_rule(ctx, rep, _roles.Queue(ctx, prog.cls("RetryExecutor")), "R-FIND")
     rep.count("walks over the retry job list", nwalk, 3)
+    # "attempt k+1 starts exactly when its delay has elapsed" needs the worker to notice a re-queued job: producers
+    # wake it, and it re-reads its job list between clear() and the next wait() (shared with C03)
+    from .. import wake as _wake
+    rep.rule("R-WAKE-P", "enabling mutations of the retry job list are followed by set() of the worker's event")
+    rep.rule("R-WAKE-L", "the retry worker re-reads its job list between clear() of its event and the next wait()")
+    _loops = [l for l in _wake.discover(ctx) if l.owner is prog.cls("RetryExecutor")]
+    rep.require(len(_loops) == 1, "RetryExecutor: worker loop not found")
+    _wake.check_loops(ctx, rep, _loops, components="state")
+    _wake.check_producers(ctx, rep, _loops)
     lay = discover(ctx)
     rex = lay.cls
     R = lay.roles
